@@ -30,6 +30,8 @@ void __real_free(void *);
 void __asan_poison_memory_region(void const volatile *, size_t);
 void __asan_unpoison_memory_region(void const volatile *, size_t);
 static int trk_inplace;
+static int trk_failshrinks;
+static uint64_t trk_nfailed;
 
 #define TRK_MAX 8192
 static struct { void * p; size_t sz; size_t cap; } trk[TRK_MAX];
@@ -112,6 +114,13 @@ __wrap_realloc(void * o, size_t n)
 			break;
 		}
 	}
+	if (tracked && trk_failshrinks > 0 && n > 0 && n < osz) {
+		/* The allocator cannot make this block smaller just now. */
+		trk_failshrinks--;
+		trk_nfailed++;
+		errno = ENOMEM;
+		return (NULL);
+	}
 	if (tracked && trk_inplace && n > 0 && n <= trk[i].cap) {
 		/* The block stays where it is. */
 		__asan_unpoison_memory_region(o, trk[i].cap);
@@ -153,6 +162,8 @@ __wrap_free(void * p)
 }
 
 void trk_set_inplace(int on) { trk_inplace = on; }
+void trk_fail_shrinks(int n) { trk_failshrinks = n; }
+uint64_t trk_failed_shrinks(void) { return (trk_nfailed); }
 
 void trk_reset(void) { trk_n = 0; trk_bytes = 0; trk_nalloc = trk_nfree = 0; }
 size_t trk_live_count(void) { return (trk_n); }
